@@ -35,7 +35,12 @@ type c09Case struct {
 	List   []string   `json:"list"`
 	Secure bool       `json:"secure"`
 	Probes []c09Probe `json:"probes"`
+	// Drain: the gate probes are sent while a policy update is draining in-flight requests (the filter of the
+	// policy in force applies to the retry-later answers too)
+	Drain bool `json:"drain,omitempty"`
 }
+
+const c09Vantage = "10.255.255.1" // always listed in drain cases: the parked request comes from here
 
 // oracleAllowed decides membership on address bits. judged=false means the
 // statement does not define the answer (zoned client, IPv4-mapped CIDR < /96).
@@ -188,6 +193,7 @@ func genC09(t *rapid.T) c09Case {
 		}
 		c.Probes = append(c.Probes, p)
 	}
+	c.Drain = rapid.IntRange(0, 5).Draw(t, "drain") == 0
 	return c
 }
 
@@ -195,8 +201,23 @@ func runC09(tb stat.TB, c c09Case) {
 	const id, check = "C09", "TestC09"
 	v := vfs.New()
 	v.SeedFile("/f", 0644, 0, 0, []byte("x"))
-	s := newSession(tb, v, absnfs.ExportOptions{AllowedIPs: c.List, Secure: c.Secure, AttrCacheTimeout: 1, AttrCacheSize: 2})
+	if c.Drain && len(c.List) > 0 {
+		c.List = append(append([]string{}, c.List...), c09Vantage)
+	}
+	s := newSession(tb, v, absnfs.ExportOptions{AllowedIPs: c.List, Secure: c.Secure, AttrCacheTimeout: 1, AttrCacheSize: 2, Timeouts: drv.FastTimeouts(10 * time.Second)})
 	defer s.close()
+	draining := false
+	if c.Drain {
+		vantage := drv.Client{IP: c09Vantage, Port: 700, Cred: nfsx.AuthSys(1, "h", 0, 0, nil)}
+		release, ok := startDrain(tb, s, v, vantage, absnfs.PolicyOptions{AllowedIPs: c.List, Secure: c.Secure})
+		if !ok {
+			stat.Inconclusive("C09: drain state could not be established")
+			stat.Discard(false)
+			return
+		}
+		defer release()
+		draining = true
+	}
 	// handle of the root obtained from an always-allowed vantage point: the table is filled directly
 	rootH := s.e.NFS.VerifFileMap()
 	_ = rootH
@@ -275,7 +296,11 @@ func runC09(tb stat.TB, c c09Case) {
 			}
 		}
 	}
-	stat.Case(c, nt)
+	if draining {
+		stat.Case(c, nt, "gate_probed_during_policy_drain")
+	} else {
+		stat.Case(c, nt)
+	}
 	stat.Label("decisions", int64(len(c.Probes)))
 }
 
